@@ -3,3 +3,5 @@
 package syzgydb
 
 func verifStep(db *SpanFile, name string, off, n uint64) {}
+
+func verifConsider(id uint64) {}
